@@ -5,28 +5,39 @@ import random
 from .. import core, lifecheck as L
 
 
-def cfg(maxops, gens):
+def cfg(maxops, gens, ovls=("o1", "o2"), drive=False):
     g = ", ".join(f'"{x}"' for x in gens)
-    return (f"INIT InitX\nNEXT Next\nCONSTANTS MaxOps = {maxops}  UseGens = {{{g}}}\nCONSTRAINT Collect\n"
-            "POSTCONDITION Report\nCHECK_DEADLOCK FALSE\n")
+    o = ", ".join(f'"{x}"' for x in ovls)
+    return (f"INIT InitX\nNEXT Next\nCONSTANTS MaxOps = {maxops}  UseGens = {{{g}}}  UseOvls = {{{o}}}  "
+            f"UseDrive = {'TRUE' if drive else 'FALSE'}\nCONSTRAINT Collect\nPOSTCONDITION Report\nCHECK_DEADLOCK FALSE\n")
 
 
 def random_history(rng, n):
     ops = []
     open_ = []
-    ost = {"o1": "new", "o2": "new"}
+    ost = {"o1": "new", "o2": "new", "o3": "new"}
     gst = {"g1": "none", "g2": "none"}
+    drive = "no" if rng.random() < 0.4 else "todo"        # todo -> in -> done
+    dlen = 0
     for k in range(n):
         r = rng.random()
+        if drive == "todo" and rng.random() < 0.25:
+            ops.append(["drive", ""])
+            drive, dlen = "in", len(open_)
+            continue
+        if drive == "in" and len(open_) == dlen and rng.random() < 0.12:
+            ops.append(["undrive", ""])
+            drive = "done"
+            continue
         if r < 0.15:
-            cand = [o for o in ost if ost[o] == "new"]
+            cand = [o for o in ost if ost[o] == "new" and not (o == "o3" and drive == "in")]
             if cand:
                 o = rng.choice(cand)
                 ops.append(["enter", o])
                 ost[o] = "open"
                 open_.append(o)
                 continue
-        if r < 0.25 and open_:
+        if r < 0.25 and open_ and not (drive == "in" and len(open_) <= dlen):
             o = open_.pop()
             ops.append(["exit", o])
             ost[o] = "closed"
@@ -70,12 +81,13 @@ def judge(out, cases, traces, fails):
 def run(out, tier, seed):
     rng = random.Random(seed * 7919 + 37)
     work = core.scratch("c09-")
-    plans = [(6, ["g1"])] if tier == "quick" else [(7, ["g1"]), (7, ["g1", "g2"])]
+    plans = [(6, ["g1"], ("o1", "o2"), False), (6, ["g1"], ("o1", "o3"), True)] if tier == "quick" else \
+        [(7, ["g1"], ("o1", "o2"), False), (7, ["g1", "g2"], ("o1", "o2"), False), (7, ["g1"], ("o1", "o2", "o3"), True)]
     cases = []
     sigs_all = {}
-    for maxops, gens in plans:
-        r = core.run_tlc("GenMC", cfg(maxops, gens), workers=1, timeout=1800)
-        out.add_tlc(f"GenMC[{maxops},{len(gens)} generators]", r)
+    for maxops, gens, ovls, drive in plans:
+        r = core.run_tlc("GenMC", cfg(maxops, gens, ovls, drive), workers=1, timeout=1800)
+        out.add_tlc(f"GenMC[{maxops},{len(gens)} generators,{'+'.join(ovls)}{',drive' if drive else ''}]", r)
         for t in r.tagged("SIGNATURE"):
             sigs_all.setdefault(t[1], t[2])
         for t in r.tagged("HIST"):
@@ -85,6 +97,11 @@ def run(out, tier, seed):
     nrand = 300 if tier == "quick" else 6000
     for _ in range(nrand):
         cases.append({"id": len(cases), "src": "random", "ops": random_history(rng, rng.randint(5, 22))})
+    # every history with BaseOverlay/Immediate handlers; a third of them also with probing() objects entered and left by hand
+    for c in list(cases):
+        c["mode"] = "overlay"
+        if c["src"] != "tlc-exhaustive" or rng.random() < 0.34:
+            cases.append(dict(c, id=len(cases), mode="probe"))
     traces = L.run_histories(cases, work, driver="harness.drivers.gen_driver")
     fails, results = L.validate(traces, work, spec="TraceGen")
     for i, r in enumerate(results):
